@@ -63,3 +63,16 @@ func c01load(g *Gen, i int, prog []GenPkg) (types.Universe, error) {
 	}
 	return p.NewUniverse()
 }
+
+func c06sigTypes(s *types.Signature) []*types.Type {
+	var out []*types.Type
+	for _, p := range s.Parameters {
+		out = append(out, p.Type)
+	}
+	for _, r := range s.Results {
+		out = append(out, r.Type)
+	}
+	return out
+}
+func c06nameOf(s string) types.Name              { return parser.GoNameToName(s) }
+func c20comparable(t *types.Type) (bool, bool) { return t.IsComparable(), true }
